@@ -110,39 +110,39 @@ def run(ctx, rep):
         # an impl written in terms of a sibling impl (`match AnyEndian::from_ei_data(b)? { Little => Ok(LittleEndian), .. }`):
         # the sibling is described by cases, so that the accepted set is again a set of tests on the byte
         sib = {c.callee_qual for c in an.calls() if c.callee_qual != q and c.callee_qual.endswith(" as endian::EndianParse>::from_ei_data")}
+        prog_ = None
         if sib:
             from ..engine import Program
-            an = Program(F, dissolve=sib).analysis(fn)
-        leaves = an.ret_leaves()
-        accepted = {}
-        ok = leaves is not None
+            prog_ = Program(F, dissolve=sib)
+        # the parameter is one byte: the function is evaluated for each of its 256 values (the shape of the tests - match, if-chain,
+        # inverted early returns, a bit mask - does not matter; what is decided is the accepted set and what each rejection carries)
         msgs = []
-        for t, st in leaves or []:
-            eqs = [f[2] for f in st.facts if f[0] == "eq" and f[1] is p1]
-            nes = sorted(f[2] for f in st.facts if f[0] == "ne" and f[1] is p1)
-            if t.op == "agg" and t.args[3] == "Ok":
-                v = t.args[4][0]
-                if len(eqs) != 1 or v.op != "agg":
-                    ok = False
-                    msgs.append("Ok outcome %s not guarded by a single value test (guards: eq %s, ne %s)" % (pp(t), eqs, nes))
-                    continue
-                accepted[eqs[0]] = (v.args[1], v.args[3])
+        accepted = {}
+        for k in range(256):
+            ak = prog_.analysis(fn, (("eq", p1, k),)) if prog_ is not None else analyze_fn(F, fn, (("eq", p1, k),))
+            lv = ak.ret_leaves() if ak is not None else None
+            outs = {ak.simp(t, st.facts) for t, st in lv} if lv else set()
+            if len(outs) != 1:
+                msgs.append("UNRECOGNISED: for EI_DATA = %d the outcome is not determined (%d candidates)" % (k, len(outs)))
+                if len(msgs) > 3:
+                    break
+                continue
+            t = next(iter(outs))
+            if t.op == "agg" and t.args[3] == "Ok" and t.args[4][0].op == "agg":
+                accepted[k] = (t.args[4][0].args[1], t.args[4][0].args[3])
             elif t.op == "agg" and t.args[3] == "Err":
                 e = t.args[4][0]
-                # rejected: a value outside the accepted set (tested for directly, or every accepted value excluded)
-                outside = (eqs and all(k not in want[st_] for k in eqs)) or (not eqs and set(nes) >= set(want[st_].keys()))
-                good = e.op == "agg" and e.args[3] == "UnsupportedElfEndianness" and e.args[4][0] is p1 and outside
-                if not good:
-                    ok = False
-                    msgs.append("error outcome %s under guards eq %s ne %s; expected UnsupportedElfEndianness(ei_data) for every value outside %s"
-                                % (pp(t), eqs, nes, sorted(want[st_])))
-            else:
-                ok = False
-                msgs.append("UNRECOGNISED outcome %s" % pp(t))
+                carried = e.args[4][0] if (e.op == "agg" and e.args[4]) else None
+                good = e.op == "agg" and e.args[3] == "UnsupportedElfEndianness" and (carried is p1 or (carried is not None and carried.op == "const" and carried.args[1] == k))
+                if not good and len(msgs) < 4:
+                    msgs.append("EI_DATA = %d is rejected with %s, expected UnsupportedElfEndianness(ei_data)" % (k, pp(e)[:120]))
+            elif len(msgs) < 4:
+                msgs.append("UNRECOGNISED outcome %s for EI_DATA = %d" % (pp(t)[:120], k))
+        ok = not msgs
         if ok and accepted != want[st_]:
             ok = False
             msgs.append("accepted set %r, expected %r" % (accepted, want[st_]))
-        rep.require(ok, "from-ei-data", st_, wh(fn["span"]), "accepts exactly %s, rejects all else with the offending byte" % sorted(want[st_]),
+        rep.require(ok, "from-ei-data", st_, wh(fn["span"]), "evaluated for all 256 values: accepts exactly %s, rejects all else with the offending byte" % sorted(want[st_]),
                     "%s::from_ei_data: %s" % (st_, "; ".join(msgs)))
     rep.floor("from-ei-data", "impls", n, 3)
 
@@ -201,6 +201,27 @@ def run(ctx, rep):
         cls = idx(p1, EI["EI_CLASS"])
         fed = T.call("endian::EndianParse::from_ei_data", ("E",), [idx(p1, EI["EI_DATA"])])
         vid = T.call("file::verify_ident", (), [p1])
+
+        def ident_view(x, depth=0):
+            """x is the buffer itself or a view of its first EI_NIDENT bytes: data.get(..16)?, data.get(0..16)?, data.first_chunk::<16>()?"""
+            while x.op in ("refval", "deref", "unsize") and depth < 6:
+                x, depth = x.args[0], depth + 1
+            if x is p1:
+                return True
+            if x.op == "payload" and x.args[1] == "Some" and x.args[0].op == "call":
+                c_ = x.args[0]
+                if c_.args[0] == "[T]::first_chunk" and ident_view(c_.args[2][0], depth + 1):
+                    return True
+                if c_.args[0] == "[T]::get" and len(c_.args[2]) == 2 and c_.args[2][1].op == "agg" and ident_view(c_.args[2][0], depth + 1):
+                    r_ = c_.args[2][1]
+                    n16 = T.const("usize", EI["EI_NIDENT"])
+                    return (r_.args[1] == "ops::RangeTo" and r_.args[4][0] is n16) or \
+                        (r_.args[1] == "ops::Range" and r_.args[4][0] is T.const("usize", 0) and r_.args[4][1] is n16)
+            return False
+        # verify_ident may be handed the ident view instead of the whole buffer (the bytes it looks at are the same)
+        for c_ in an.calls():
+            if c_.callee_qual == "file::verify_ident" and c_.block in an.entry and c_.args and ident_view(c_.arg_values()[0]):
+                vid = c_.result if c_.result.op == "call" else vid
         seen = set()
         for t, st in an.ret_leaves() or []:
             facts = st.facts
@@ -233,7 +254,9 @@ def run(ctx, rep):
                     rep.ok("ident", "parse_ident:verify-error", w, "verify_ident's error is propagated unchanged")
                 elif e.op == "agg" and e.args[3] == "SliceReadError":
                     lenlt = T.bin("Lt", T.length(p1), T.const("usize", EI["EI_NIDENT"]), "usize")
-                    rep.require(an.truth(facts, lenlt) is True, "ident", "parse_ident:short", w, "short buffer (< EI_NIDENT) is an error",
+                    no_view = any(f[0] == "var" and f[2] == "None" and f[1].op == "call" and ident_view(T.payload(f[1], "Some")) and f[1].args[2][0] is not None
+                                  and not (T.payload(f[1], "Some") is p1) for f in facts)        # data.get(..16) / first_chunk::<16>() is None: fewer than 16 bytes
+                    rep.require(an.truth(facts, lenlt) is True or no_view, "ident", "parse_ident:short", w, "short buffer (< EI_NIDENT) is an error",
                                 "SliceReadError outcome not guarded by len < EI_NIDENT")
                     seen.add("short")
                 else:
